@@ -227,7 +227,7 @@ theorem c12_missing_required_attribute_refused (fs : List BField) (as : List BAt
       apply collect_error _ .validation
       simp only [List.mem_map]
       refine ⟨a, ha, ?_⟩
-      rcases hl with hl | hl <;> simp [hl, hr]
+      rcases hl with hl | hl <;> simp [emitAttr, hl, hr]
     obtain ⟨e, he⟩ := hattr
     simp only [emitTy, he]
     cases emitFields fs kw with
